@@ -12,7 +12,7 @@ SideC1 == {e \in C1Entries : e.meta = <<MA, MB>> /\ e.exp = "f1" /\ e.orig = <<>
 
 Init == /\ stage = 0
         /\ \E ep \in (MainEnvs \X ({Context} \cup {Context \cup {e} : e \in C1Entries} \cup {{}, {C2Entry}}))
-                           \cup (SideEnvs \X ({Context, {}} \cup {Context \cup {e} : e \in SideC1})) : env = ep[1] /\ ps = ep[2]
+                           \cup ((SideEnvs \cup FaultEnvs) \X ({Context, {}} \cup {Context \cup {e} : e \in SideC1})) : env = ep[1] /\ ps = ep[2]
         /\ call = [op |-> "none"]
         /\ obs = [ok |-> FALSE]
 Next == /\ stage = 0 /\ stage' = 1
